@@ -443,16 +443,16 @@ func returnsOf(f *ssa.Function) []*ssa.Return {
 // passThroughParam: f (a function of the analysed module, with a body) hands back one of its parameters as its first
 // result on every return path — a helper like `func restoreQid(r *[]byte, q []byte) *[]byte { ...; return r }`.
 // Returns the parameter index (receiver included) or -1.
-var passThroughCache = map[*ssa.Function]int{}
+var passThroughCache cmap[*ssa.Function, int]
 
 func passThroughParam(f *ssa.Function) int {
 	if f == nil || len(f.Blocks) == 0 || !inMosdns(f) {
 		return -1
 	}
-	if v, ok := passThroughCache[f]; ok {
+	if v, ok := passThroughCache.get(f); ok {
 		return v
 	}
-	passThroughCache[f] = -1
+	passThroughCache.set(f, -1)
 	idx := -1
 	for _, b := range f.Blocks {
 		ret, ok := b.Instrs[len(b.Instrs)-1].(*ssa.Return)
@@ -473,7 +473,7 @@ func passThroughParam(f *ssa.Function) int {
 		}
 		idx = k
 	}
-	passThroughCache[f] = idx
+	passThroughCache.set(f, idx)
 	return idx
 }
 
